@@ -79,6 +79,9 @@ theorem serializeLeaf_legal (s : Schema) (n : String) (v : GoVal) (j : JVal) (h 
     rw [hf]
     split at h
     · rename_i j' hj
+      by_cases hp : leafPanics k j' = true
+      · rw [if_pos hp] at h; cases h
+      rw [if_neg hp] at h
       simp only [Option.some.injEq] at h
       subst h
       cases k with
